@@ -95,6 +95,20 @@ pub fn fragment_patterns() -> Vec<(&'static str, Vec<QDef>)> {
             fr("Rec", "Person", vec![f("name"), o("friend", vec![sp("Rec")])]),
             q(vec![o("me", vec![sp("T")])]),
         ]),
+        ("a mutual pair first reached from an earlier, non-recursive fragment", vec![
+            fr("Entry", "Person", vec![f("name"), o("friend", vec![sp("PersonTree")])]),
+            fr("PersonTree", "Person", vec![f("name"), o("friend", vec![sp("CompanyTree")])]),
+            fr("CompanyTree", "Person", vec![o("bestFriend", vec![f("name"), sp("PersonTree")])]),
+            q(vec![o("me", vec![sp("Entry")])]),
+        ]),
+        ("two entry fragments before a three-cycle", vec![
+            fr("E1", "Person", vec![o("friend", vec![sp("E2")])]),
+            fr("E2", "Person", vec![f("name"), o("friends", vec![sp("A")])]),
+            fr("A", "Person", vec![o("friend", vec![sp("B")])]),
+            fr("B", "Person", vec![f("name"), o("friend", vec![sp("C")])]),
+            fr("C", "Person", vec![o("friend", vec![f("name"), sp("A")])]),
+            q(vec![o("me", vec![sp("E1")])]),
+        ]),
         ("non-recursive chain", vec![
             fr("A", "Person", vec![f("name"), o("friend", vec![sp("B")])]),
             fr("B", "Person", vec![f("name")]),
